@@ -865,6 +865,11 @@ class Evaluator:
                 r = self.hooks.construct(self, target, args, kwargs)
                 if r is not NotImplemented:
                     return r
+            if any(b in ("Exception", "BaseException")
+                   for b in target.builtin_bases()):
+                # an exception object kept in a variable and raised later
+                return Abs(target, label="exc:%s" % target.name,
+                           __exception__="gfapy.%s" % target.name)
             raise Unsupported("table evaluator: constructor %s(...) has no "
                               "model" % target.qualname)
         if self.hooks is not None:
@@ -1048,6 +1053,10 @@ class Evaluator:
         if isinstance(st, ast.Return):
             raise _Return(self.ev(st.value) if st.value is not None else None)
         if isinstance(st, ast.Raise):
+            if isinstance(st.exc, ast.Name) and st.exc.id in self.env:
+                v = self.env[st.exc.id]
+                if isinstance(v, Abs) and v.attrs.get("__exception__"):
+                    raise Raised(v.attrs["__exception__"])
             raise Raised(raise_class_name(st))
         if isinstance(st, ast.If):
             if self.truth(self.ev(st.test)):
